@@ -722,6 +722,17 @@ pub fn judge(w: &World, run: &Run, focus: Option<&str>) -> (Verdict, RunInfo) {
                 ),
             ));
         }
+        if !f.accessors_agree {
+            return Some(viol(
+                "R7",
+                C18,
+                "accessors-disagree",
+                format!(
+                    "included source `{}`: `ast()` / `included_files()` disagree with `syntax_ast()` / `included()`",
+                    f.path
+                ),
+            ));
+        }
         if !inst.tags_ok.contains(&f.path) {
             return Some(viol(
                 "R7",
